@@ -183,6 +183,12 @@ func labelStream(seed uint64, n int) {
 			if r.Chance(20) {
 				lines[r.Intn(len(lines))] = "garbage here"
 			}
+			if r.Chance(25) {
+				// an empty or blank line is not a well-formed definition either — wherever it stands
+				blank := []string{"", " ", "\t", "   "}[r.Intn(4)]
+				at := r.Intn(len(lines) + 1)
+				lines = append(lines[:at], append([]string{blank}, lines[at:]...)...)
+			}
 			emit(labelFileCase(kind, lines, 0, 0))
 			count("labelfile")
 		}
